@@ -976,6 +976,16 @@ def cone_stream(ctx, rng):
         outcome, calls, M, A, pos = run_cone(p)
         ctx.evaluations += 1
         bad = cone_predicates(p, outcome, calls, M, A, pos)
+        if bad and outcome[0] == 'ok':
+            # ARPACK starts from a random vector; for reference loads many orders below critical the Cayley-transformed spectrum is clustered at -1 and a
+            # single run can deliver an unconverged pair.  A defect of the glue is deterministic: the failure must reproduce on two further runs.
+            for _ in range(2):
+                o_, c_, M_, A_, pos_ = run_cone(p)
+                if not cone_predicates(p, o_, c_, M_, A_, pos_):
+                    bad = []
+                    ctx.cov['cone_lb_unreproducible_solver_noise'] = ctx.cov.get('cone_lb_unreproducible_solver_noise', 0) + 1
+                    outcome, calls, M, A, pos = o_, c_, M_, A_, pos_
+                    break
         if not bad and outcome[0] == 'ok' and p['clc'] == 0 and not p.get('_degenerate'):
             o2 = run_cone(p, p['scale'])[0]
             if o2[0] == 'ok' and np.all(np.isfinite(o2[1])):
